@@ -392,6 +392,15 @@ def accept_case(case, rec, ssj):
             'tok': tok, 'n_jobs': case['n_jobs'], 'l_out_attrs': rng.choice([None, ['lx'], ['lattr']]),
             'r_out_attrs': rng.choice([None, ['rx']])}
     am = case['allow_missing']
+    if case.get('keyjoin'):
+        # the (unique, never missing) string column is key AND join attribute of its table
+        for spec, side in ((L, 'l'), (R, 'r')):
+            n = T.spec_len(spec)
+            spec['data'][side + 'attr'] = ['%s w%d' % (rng.choice(['a b', 'b c', 'a']), i) for i in range(n)]
+        call['l_key'] = 'lattr'
+        call['r_key'] = 'rattr'
+        call['l_out_attrs'] = rng.choice([None, ['lx'], ['lattr', 'lid']])
+        call['r_out_attrs'] = rng.choice([None, ['rx', 'rid']])
     if entry in T.JOINS:
         call['api'] = entry
         call['allow_missing'] = am
@@ -413,11 +422,11 @@ def accept_case(case, rec, ssj):
                               'allow_missing': am}
         call['api'] = 'filter_tables' if entry.startswith('ft:') else 'filter_candset'
     if entry in ('filter_candset', 'apply_matcher'):
-        call['candset'] = gen.random_candset(rng, L, R, 'lid', 'rid', size=rng.choice([0, 1, 3, 6]),
-                                             extra_cols=False)
-        call['c_l_key'], call['c_r_key'] = 'l_lid', 'r_rid'
+        call['candset'] = gen.random_candset(rng, L, R, call['l_key'], call['r_key'],
+                                             size=rng.choice([0, 1, 3, 6, 14]), extra_cols=False)
+        call['c_l_key'], call['c_r_key'] = 'l_' + call['l_key'], 'r_' + call['r_key']
         if T.spec_len(call['candset']) == 0:
-            call['candset']['dtypes'] = {'_id': 'int64', 'l_lid': 'int64', 'r_rid': 'int64'}
+            call['candset']['dtypes'] = {'_id': 'int64', call['c_l_key']: 'int64', call['c_r_key']: 'int64'}
     if entry == 'apply_matcher':
         call['api'] = 'apply_matcher'
         call['sim'] = 'JACCARD'
@@ -435,7 +444,8 @@ def accept_case(case, rec, ssj):
         elif r < 0.6:
             call['profile_attrs'] = rng.choice([[side + 'attr'], [side + 'id', side + 'x']])
     rec.count('acceptance_cases')
-    tag = '%s left=%s right=%s dtype=%s allow_missing=%r n_jobs=%r: ' % (entry, ls, rs, dtype, am, case['n_jobs'])
+    tag = '%s left=%s right=%s dtype=%s allow_missing=%r n_jobs=%r%s: ' % (
+        entry, ls, rs, dtype, am, case['n_jobs'], ' key==join attribute' if case.get('keyjoin') else '')
     try:
         res = T.exec_call(ssj, call)
     except Exception as e:
@@ -478,7 +488,9 @@ def run_shard(shard, rec):
                                 continue
                             case = {'gen': 'acc', 'entry': entry, 'lshape': ls, 'rshape': rs,
                                     'dtype': dtype, 'allow_missing': am, 'n_jobs': nj,
-                                    'seed': shard['seed'] * 100000 + n}
+                                    'seed': shard['seed'] * 100000 + n,
+                                    'keyjoin': (ls in ('zero', 'one', 'normal') and rs in ('zero', 'one', 'normal')
+                                                and entry != 'profile' and (n % 3 == 0))}
                             n += 1
                             accept_case(case, rec, ssj)
                             rec.case(sig=('acc', entry, ls, rs, dtype, am, nj, r), nontrivial=True)
